@@ -133,12 +133,18 @@ def worker(job):
         layer = ml.MaxNormPool(param, True)
         sh = tuple(param if i == 0 else 0 for i in range(D))
         check_layer(it, layer, sig, D, N, flags, problems, cfg, kind, shift=(sh, tuple(1 if i == 0 else 0 for i in range(D))))
-    elif kind in ("max_pool", "average_pool", "unpool"):
+    elif kind in ("max_pool", "max_pool_cmp", "average_pool", "unpool"):
         N = (4, 4) if D == 2 else (2, 2, 4)
         if kind == "unpool":
             N = (2, 3) if D == 2 else (2, 2, 3)
         MI = geom.MultiImage
         GI = geom.GeometricImage
+
+        def labelled(r, t, x):
+            # the GeometricImage methods must hand back the input's type labels: pooling keeps the type
+            if (r.k, r.parity % 2, r.D, tuple(r.is_torus)) != (t[0], t[1], D, tuple(x.is_torus)) and not any(p[0] == "labels" for p in problems):
+                problems.append(("labels", "GeometricImage.%s returns an image declared (k=%r, parity=%r, D=%r, is_torus=%r) for an input of type %s, D=%d, is_torus=%r" % (kind, r.k, r.parity, r.D, r.is_torus, tname(t), D, tuple(x.is_torus)), None))
+            return r.data
 
         def fn(x):
             out = {}
@@ -146,12 +152,23 @@ def worker(job):
                 blk = x[t]
                 res = []
                 for c in range(blk.shape[0]):
-                    if kind == "max_pool":
+                    if kind == "max_pool_cmp":
+                        # selection by an explicit comparator image (the first scalar channel of the input)
+                        res.append(geom.max_pool(D, blk[c], param, False, x[(0, 0)][0]))
+                    elif kind == "max_pool":
                         res.append(geom.max_pool(D, blk[c], param, True))
+                        if c == 0:
+                            m = labelled(GI(blk[c], t[1], D, x.is_torus).max_pool(param, True), t, x)
+                            if not same_elems(m, res[-1]) and not any(p[0] == "method" for p in problems):
+                                problems.append(("method", "GeometricImage.max_pool differs from geom.max_pool on the same data", None))
                     elif kind == "average_pool":
                         res.append(geom.average_pool(D, blk[c], param))
+                        if c == 0:
+                            m = labelled(GI(blk[c], t[1], D, x.is_torus).average_pool(param), t, x)
+                            if not same_elems(m, res[-1]) and not any(p[0] == "method" for p in problems):
+                                problems.append(("method", "GeometricImage.average_pool differs from geom.average_pool on the same data", None))
                     else:
-                        res.append(GI(blk[c], t[1], D, x.is_torus).unpool(param).data)
+                        res.append(labelled(GI(blk[c], t[1], D, x.is_torus).unpool(param), t, x))
                 out[t] = A.stack(res, 0)
             return MI(out, D, x.is_torus)
 
@@ -167,6 +184,7 @@ CONSTRUCT = {
     "VectorNeuronNonlinear": (LAYERS_MOD, "VectorNeuronNonlinear.__call__"),
     "MaxNormPool": (LAYERS_MOD, "MaxNormPool.__call__"),
     "max_pool": (FN_MOD, "max_pool"),
+    "max_pool_cmp": (FN_MOD, "max_pool"),
     "average_pool": (FN_MOD, "average_pool"),
     "unpool": (GI_MOD, "GeometricImage.unpool"),
 }
@@ -215,6 +233,8 @@ def run(ctx):
         for sig in pool_sigs:
             jobs.append((ctx.repo, "MaxNormPool", D, sig, 2))
             jobs.append((ctx.repo, "max_pool", D, sig, 2))
+            if any(t == (0, 0) for t, _ in sig):
+                jobs.append((ctx.repo, "max_pool_cmp", D, sig, 2))
             jobs.append((ctx.repo, "average_pool", D, sig, 2))
             jobs.append((ctx.repo, "unpool", D, sig, 2))
             if D == 2:
